@@ -391,4 +391,9 @@ def expand1 (fuel : Nat) (kw : String) (use : Datum) : Except SErr Datum :=
 /-- `u` is a proper list with elements `es` (whatever the locations on its spine) -/
 def IsList (u : Datum) (es : List Datum) : Prop := u.spine = (es, none)
 
+/-- each datum of `bs` is a two-element proper list `(x y)`; `xys` lists the pairs `(x, y)` -/
+inductive IsPairs : List Datum → List (Datum × Datum) → Prop
+  | nil : IsPairs [] []
+  | cons {b bs xy xys} : IsList b [xy.1, xy.2] → IsPairs bs xys → IsPairs (b :: bs) (xy :: xys)
+
 end Ruschm.Macro
